@@ -141,7 +141,7 @@ def run(tier):
 
     # ------------------------------------------------------------------ (C) TSan free-running pass
     dt = vmd.Daemon(tsan, os.path.join(work, "dT"), extra_env={"TSAN_OPTIONS": "halt_on_error=0 second_deadlock_stack=1"})
-    names = sorted(n for n in mods if n != "s_extern")
+    names = sorted(n for n in mods if n not in ("s_extern", "s_ffi_holder"))
     mism = []
     try:
         rounds = [(2, 6), (8, 3), (32, 2)] if tier == "quick" else [(2, 20), (8, 10), (32, 6), (64, 3)]
@@ -161,6 +161,27 @@ def run(tier):
                 for i in range(k):
                     if results[i] != solo_obs[batch[i]]:
                         mism.append((batch[i], k, results[i]))
+        # sessions whose co-process carries state (cwd after chdir) next to short FFI sessions that come and go:
+        # a session must keep talking to ITS co-process for its whole life
+        for r in range(3 if tier == "quick" else 10):
+            k = 7
+            batch = ["s_ffi_holder"] + ["s_extern"] * (k - 1)
+            results = [None] * k
+
+            def one2(i):
+                if i:
+                    import time as _t
+                    _t.sleep(0.02 * i)
+                results[i] = client_run(plain, mods[batch[i]], dt, timeout=120)
+            ths = [threading.Thread(target=one2, args=(i,)) for i in range(k)]
+            for t in ths:
+                t.start()
+            for t in ths:
+                t.join()
+            rep.count("transitions", k)
+            for i in range(k):
+                if results[i] != solo_obs[batch[i]]:
+                    mism.append((batch[i], k, results[i]))
         if not dt.alive():
             rep.violation("tsan-daemon-died", {"stderr.txt": dt.stderr_text()[-20000:]}, "tsan-built daemon died while serving concurrent clients")
     finally:
